@@ -31,7 +31,7 @@ OUTSIDE = ["n_cal above the bound; alpha off the listed grid (alpha enters throu
            "both concrete per case)", "feature sets other than none / two continuous features"]
 BOUNDS = {"quick": "calib: (alpha, n) in {(0.5, 3..5), (0.6, 4..5)} i.e. n_cal = 2..4, robust on/off, 2 nonreporting units, no features and "
                    "2 (concrete) features; coverage: pools of n_cal + 1 = 3..4 units, alpha in {0.5, 0.6}",
-          "thorough": "calib adds (0.5, 6), (0.7, 6), (0.7, 7) i.e. n_cal up to 6; coverage: pool of 5"}
+          "thorough": "calib adds (0.5, 6), (0.7, 6) i.e. n_cal up to 5; coverage: pool of 5"}
 OPTS = {"quick": dict(case_timeout_s=900, solver_timeout_ms=60000), "thorough": dict(case_timeout_s=3300, solver_timeout_ms=120000)}
 
 
@@ -43,7 +43,7 @@ def cases(tier):
     out = []
     grid = [(0.5, 3), (0.5, 4), (0.5, 5), (0.6, 4), (0.6, 5)]
     if tier == "thorough":
-        grid += [(0.5, 6), (0.7, 6), (0.7, 7)]
+        grid += [(0.5, 6), (0.7, 6)]
     for alpha, n in grid:
         for robust in (False, True):
             out.append(dict(name="calib_a%s_n%d_%s" % (alpha, n, "robust" if robust else "plain"), kind="calib", alpha=alpha, n=n,
